@@ -204,8 +204,9 @@ def _machine_config(cfg):
 
 
 _COUNTS = {"coin_cb": 0, "svc_cb": 0, "award_cb": 0}
-_VIOL_RUNS = [0]
-SHRINK_BUDGET_RUNS = 150
+_WRAPPED = set()
+_VIOL_TIME = [0.0]
+SHRINK_BUDGET_S = 8.0
 _PATCHED = []
 
 
@@ -227,6 +228,7 @@ def _patch_counters():
         wrapper.__name__ = name
         wrapper.__wrapped__ = orig
         setattr(cls, name, wrapper)
+        _WRAPPED.add(key)
     wrap("_credit_switch_callback", "coin_cb")
     wrap("_service_credit_callback", "svc_cb")
     wrap("_credit_event_callback", "award_cb")
@@ -291,6 +293,8 @@ def _crash_sig(text):
 def run_case(case):
     from vlib.boot import VMachine, MpfCrash
     from vlib import c20_model as cm
+    import time as _time
+    t_case0 = _time.time()
     _patch_counters()
 
     cfg = case["cfg"]
@@ -689,6 +693,9 @@ def run_case(case):
                 else:
                     continue
                 consume_env()
+                if cb is not None and {"coin": "coin_cb", "coins": "coin_cb", "svc": "svc_cb",
+                                       "award": "award_cb"}[kind] not in _WRAPPED:
+                    cb = None           # callback not observable in this tree: no callback-count oracle
                 check_state(i, op, cb)
         except MpfCrash as e:
             txt = repr(e)
@@ -704,11 +711,18 @@ def run_case(case):
     obs["hyp_overflow"] = int(model.overflow)
 
     viol.sort(key=lambda v: v["sig"] in KNOWN_ORDER)
+    if len(viol) > 1:
+        # harness workaround: the worker shrinks a case for its FIRST signature only and the driver then reuses that
+        # case as witness for every signature of the record; report one (root, unlisted-first) violation per case so
+        # every replay file reproduces its own signature.  Other mechanisms show up in other cases.
+        viol[0]["detail"]["also_in_this_case"] = [v["sig"] for v in viol[1:]]
+        viol = viol[:1]
     if viol:
         # harness workaround: the worker shrinks EVERY violating case of an unlisted signature (seconds each);
-        # a few shrunk witnesses per worker process are enough, after that hand cases back unshrunk
-        _VIOL_RUNS[0] += 1
-        if _VIOL_RUNS[0] > SHRINK_BUDGET_RUNS:
+        # a few shrunk witnesses per worker process are enough, after that hand cases back unshrunk.  The budget
+        # is wall time spent in violating runs of this process, so it adapts to a loaded machine.
+        _VIOL_TIME[0] += _time.time() - t_case0
+        if _VIOL_TIME[0] > SHRINK_BUDGET_S:
             globals()["SHRINK_KEYS"] = []
     kinds = []
     for op in ops:
